@@ -4,6 +4,7 @@ library entry points the functions under contract use.
 """
 import datetime
 import z3
+import os
 from collections import OrderedDict
 
 from . import ops
@@ -302,9 +303,64 @@ def b_all(it, seq):
     return True
 
 
+_SUM_VAR = z3.Int('k!sum')
+
+
+def sum_symbolic(it, seq, start=0):
+    """
+    sum over a symbolic list: PS(n), where PS is the partial-sum function of the
+    term t(k) = seq[k].  PS is an uninterpreted function shared by every sum
+    (code or spec) over the *same* term, identified by the simplified term at a
+    canonical index variable; it is tied to the term by PS(0) = 0 and, when the
+    contract sets it.sum_axioms, PS(k+1) = PS(k) + t(k) (a quantified fact; never
+    used for feasibility).  Without the recursive fact only congruence is
+    available: fewer things are provable, nothing false is.
+    Two sums over syntactically different terms are unrelated unless the
+    solver can derive equality from those facts.
+    """
+    old = it.quant_depth
+    it.quant_depth += 1
+    try:
+        t = seq.get(_SUM_VAR)
+    finally:
+        it.quant_depth = old
+    if isinstance(t, bool):
+        t = int(t)
+    if isinstance(t, int):
+        tz, real = z3.IntVal(t), False
+    elif isinstance(t, SInt):
+        tz, real = t.z, False
+    elif isinstance(t, SReal):
+        tz, real = t.z, True
+    elif isinstance(t, SBool):
+        tz, real = z3.If(t.z, 1, 0), False
+    else:
+        raise Unsupported('sum over symbolic list of %s' % ops.typename(t))
+    tz = z3.simplify(tz)
+    key = tz.sexpr()
+    if os.environ.get('PYVC_DEBUG_SUM'):
+        print('SUM-KEY', key.replace('\n', ' '))
+    defs = it.path.__dict__.setdefault('sum_defs', {})
+    if key not in defs:
+        name = 'PS!%d' % len(defs)
+        f = z3.Function(name, z3.IntSort(), z3.RealSort() if real else z3.IntSort())
+        defs[key] = f
+        it.path.assume(f(0) == 0)
+        if getattr(it, 'sum_axioms', False):
+            j = it.bound_var('ps')
+            it.path.assume(z3.ForAll([j], z3.Implies(j >= 0, f(j + 1) == f(j) + z3.substitute(tz, (_SUM_VAR, j)))))
+    f = defs[key]
+    n = z3.simplify(z3.If(seq.n > 0, seq.n, 0))
+    total = f(n)
+    r = SReal(total) if real else SInt(total)
+    if not (isinstance(start, int) and start == 0):
+        r = ops.binop(it, '+', start, r)
+    return r
+
+
 def b_sum(it, seq, start=0):
     if isinstance(seq, SList):
-        raise Unsupported('sum over symbolic list (use a spec function)')
+        return sum_symbolic(it, seq, start)
     r = start
     for x in it.iterate_concrete(seq):
         r = ops.binop(it, '+', r, x)
@@ -952,6 +1008,8 @@ def ospath_attr(full):
         return Builtin(split)
     if name == 'basename':
         def basename(it, p):
+            if isinstance(p, str):
+                return __import__('posixpath').basename(p)
             t = it.fresh_str('basename')
             it.fact(path_sepfree(t.z))
             return t
